@@ -394,7 +394,7 @@ structure Contour where
   cpb : Option (Option Box) := none
   /-- `_representations["defcon.contour.area"][None]` when present (signed) -/
   area : Option Rat := none
-deriving Repr
+deriving DecidableEq, Repr
 
 def prims (pts : List Point) : List Prim := expand (drawCalls pts)
 
